@@ -2275,7 +2275,21 @@ class PrepareAst:
                         if first_target is None:
                             first_target = target
 
-            result_statements.append(self.apply(inp.body))
+            try:
+                result_statements.append(self.apply(inp.body))
+            except BaseException as err:
+                # The body cannot be converted and the design is rejected.
+                # Intrinsic __enter__ methods have already been executed
+                # by the Python interpreter, run the matching intrinsic __exit__
+                # methods so no state (for example the scope of std.prefix)
+                # leaks into later compilations.
+                for context, fn in exit_list[::-1]:
+                    if _is_intrinsic(fn):
+                        try:
+                            fn(context, type(err), err, err.__traceback__)
+                        except BaseException:
+                            pass
+                raise
 
             for context, fn in exit_list[::-1]:
                 returns_always = 0
